@@ -2070,3 +2070,16 @@ M("C15-output-template-header-without-is-template", "C15", "src/cppparser/cppCon
 M("C15-benign-template-scope-tested-directly", "C15", "src/cppparser/cppConcept.cxx",
   "  if (is_template()) {\n    get_template_scope()->_parameters.write_formal(out, scope);",
   "  if (get_template_scope() != nullptr) {\n    get_template_scope()->_parameters.write_formal(out, scope);", benign=True)
+
+# ---- R15.26 (F-C15x: write_call_args subscripts _parameters with the caller's count)
+F_FR = "src/interrogate/functionRemap.cxx"
+M("C15-call-args-bounded-by-the-expression-list-only", "C15", F_FR,
+  "       pn < num_parameters && pn < _parameters.size(); ++pn) {\n", "       pn < num_parameters; ++pn) {\n    nassertd(pn < _parameters.size()) break;\n",
+  expect="R15.26|FunctionRemap::write_call_args|")
+M("C15-remap-compare-without-size-test", "C15", F_PN,
+  "  if (in1->_parameters.size() != in2->_parameters.size()) {\n    return (in1->_parameters.size() > in2->_parameters.size());\n  }\n", "",
+  expect="R15.26|RemapCompareLess|")
+M("C15-benign-call-args-bound-by-min", "C15", F_FR,
+  "  for (pn = _first_true_parameter;\n       pn < num_parameters && pn < _parameters.size(); ++pn) {\n",
+  "  for (pn = _first_true_parameter; pn < num_parameters; ++pn) {\n    if (!(pn < _parameters.size())) {\n      break;\n    }\n",
+  benign=True)
